@@ -192,6 +192,18 @@ def concrete_violation():
             v_ = float(np.asarray(m.univariates[j].cdf(np.array([med])))[0])
             if not 0.2 < v_ < 0.8:
                 return True, f'{nm}: marginal of column {c} puts CDF {v_:.3f} at the column median (fitted on another column?)'
+        # the dependence handed to the sampler is the Pearson correlation of the normal scores (0 with the constant column)
+        from copulas.utils import EPSILON
+        U = np.column_stack([np.clip(np.asarray(m.univariates[j].cdf(t[c].to_numpy()), dtype=float), EPSILON, 1 - EPSILON)
+                             for j, c in enumerate(t.columns)])
+        with np.errstate(all='ignore'):
+            P = np.nan_to_num(pd.DataFrame(stats.norm.ppf(U)).corr().to_numpy(), nan=0.0)
+        A = m.correlation.to_numpy()
+        off = ~np.eye(4, dtype=bool)
+        if not np.allclose(A[off], P[off], atol=1e-8):
+            i, j = np.argwhere(off & ~np.isclose(A, P, atol=1e-8))[0]
+            return True, (f'{nm}: fitted correlation between {t.columns[i]!r} and {t.columns[j]!r} is {A[i, j]:+.3f}, the normal scores of the '
+                          f'training columns have {P[i, j]:+.3f}')
         # the sample is Q_j(Phi(Z)) of the seeded normal draws
         st = np.random.RandomState(5)
         Z = st.multivariate_normal(np.zeros(4), m.correlation.to_numpy(), size=7)
